@@ -225,8 +225,33 @@ Definition ast_of_schema (sc : schema) : outcome document :=
 (* schemas that SDL can express exactly: python names are the GraphQL names,
    enum values are their names, descriptions are not empty strings, and the
    schema is valid *)
+(* a default of a specified scalar has the Python type coercion produces
+   (str for String / ID, int for Int, float for Float, bool for Boolean); code
+   may supply other values (String = 1), which SDL cannot express *)
+Fixpoint base_name (t : tref) : str :=
+  match t with RNamed n => n | RList t' | RNonNull t' => base_name t' end.
+
+Definition leaf_kind_ok (n : str) (v : pv) : bool :=
+  if str_eqb n (S_ "String") || str_eqb n (S_ "ID") then match v with PStr _ => true | _ => false end
+  else if str_eqb n (S_ "Int") then match v with PInt _ => true | _ => false end
+  else if str_eqb n (S_ "Float") then match v with PFloat _ => true | _ => false end
+  else if str_eqb n (S_ "Boolean") then match v with PBool _ => true | _ => false end
+  else true.
+
+Fixpoint default_kind_ok (n : str) (v : pv) : bool :=
+  match v with
+  | PNone => true
+  | PList l => forallb (default_kind_ok n) l
+  | PDict _ => true
+  | _ => leaf_kind_ok n v
+  end.
+
 Definition siv_sdl (a : sivalue) : bool :=
-  str_eqb (siv_py a) (siv_name a) && negb (match siv_desc a with Some [] => true | _ => false end).
+  str_eqb (siv_py a) (siv_name a) && negb (match siv_desc a with Some [] => true | _ => false end)
+  && match siv_default a with
+     | Some v => default_kind_ok (base_name (siv_type a)) v
+     | None => true
+     end.
 Definition sf_sdl (f : sfield) : bool :=
   str_eqb (sf_py f) (sf_name f) && forallb siv_sdl (sf_args f)
   && negb (match sf_desc f with Some [] => true | _ => false end).
